@@ -119,6 +119,12 @@ func (r *Reader) readRecord() (*record, error) {
 	// Read payload
 	data := make([]byte, length)
 	if _, err := io.ReadFull(r.reader, data); err != nil {
+		// A header whose payload is missing entirely is a torn record too,
+		// not a clean end of the log (ReadFull reports io.EOF when it could
+		// not read a single byte)
+		if err == io.EOF && length > 0 {
+			err = io.ErrUnexpectedEOF
+		}
 		return nil, err
 	}
 
